@@ -12,6 +12,7 @@ fn core_alphabet() -> Vec<BOp> {
         BOp::BeginBlock,
         BOp::IAdd,          // fails after reserving an id when no block is selected
         BOp::ExtInst,       // likewise
+        BOp::ExtInstExplicit(2), // fails without reserving anything: an explicit id was passed
         BOp::IAddExplicit(2),
         BOp::BeginBlockId(3),
         BOp::Ret,
